@@ -304,24 +304,25 @@ def needRepublish (s : State) (now : Nat) : Bool :=
   | none, _ => true
   | _, none => true
   | some _, some lp =>
+    if lp = now then false else                 -- published at this very instant: nothing to supersede yet (F24 repair)
     let elapsed := now - lp                     -- `duration_since().unwrap_or_default()`
     let d := s.cfg.durationUs
     if d > 30000000 then decide (d - 5000000 < elapsed)
     else if d > 10000000 then decide (d - 1000000 < elapsed)
     else decide (d ≤ elapsed)
 
-/-- `Oti::max_transfer_length` (usize arithmetic is checked in the dev profile; RS-GF(2^m) is `todo!()`) -/
+/-- `usize::saturating_mul` (64 bit) -/
+def satMul64 (a b : Nat) : Nat := if a * b < 2^64 then a * b else 2^64 - 1
+
+/-- `Oti::max_transfer_length`: both products saturate (since /repo bda304c); RS-GF(2^m) is `todo!()` in
+    `max_source_blocks_number` -/
 def maxTransferLength (o : Oti) : Rs Nat :=
   if o.enc = 2 then .error "todo" else
   let limit := if o.enc = 6 then 0xFFFFFFFFFF else 0xFFFFFFFFFFFF   -- RaptorQ: 40 bits, others 48 bits
   let maxSbn := if o.enc = 0 then 65535 else if o.enc = 5 then 255 else if o.enc = 129 then 4294967295
                 else if o.enc = 6 then 255 else 65535
-  match u64mul o.esl o.maxSbl with
-  | .error w => .error w
-  | .ok blockSize =>
-    match u64mul blockSize maxSbn with
-    | .error w => .error w
-    | .ok size => .ok (if size > limit then limit else size)
+  let size := satMul64 (satMul64 o.esl o.maxSbl) maxSbn
+  .ok (if size > limit then limit else size)
 
 inductive AddRes where
   | ok (toi : Nat)
@@ -353,6 +354,8 @@ def kMax (enc : Nat) : Nat := if enc = 6 then 56403 else 8192
     RaptorQ / Raptor (`FileDesc::new`).  `none` = `Err`, `.error` = panic. -/
 def effectiveOti (dflt : Oti) (a : ObjAttrs) : Rs (Option Oti) :=
   let o := a.oti.getD dflt
+  -- Reed-Solomon GF(2^m) has no encoder: `Err` (since /repo 79f1d06; before: `todo!()` panic in `max_transfer_length`)
+  if o.enc = 2 then .ok none else
   match maxTransferLength o with
   | .error w => .error w
   | .ok mtl =>
